@@ -1,9 +1,149 @@
+import CoupeModel.Model.KMeansAbs
 import CoupeModel.Driver.Util
+import CoupeModel.Driver.C07
+import CoupeModel.Driver.C14
+import CoupeModel.Driver.C15
+
+/-!
+Driver for C02 (ops: see `harness/src/props/c02.rs`).  Canonical line: `ok <ids>` | `err <error>` |
+`panic <class>` | `skip <why>` | `illegal-step …`.
+
+* `vnbest|vnfirst`, `kl`, `fm`: the op's tail is the owner's op (C14, C15, C07); the owner's handler
+  runs the exact model and the id array is cut out of its line.
+* `arcswap`: the exact model is the scheduled step function of C05 – not replayed here (`skip`).
+* `kmeans2|kmeans3`: the sweeps recorded by the hook are checked one by one against the abstract
+  model (`KMeansAbs.legalStep` = "some `best` function produces this sweep", theorem
+  `kmeans_legal_step_iff`; `sameIds`: the centre ids in use are a rearrangement of
+  `centerIds ids`), then the model is RUN on the `best` functions read off the recorded sweeps
+  (`bestOf`) and its outcome is printed.
+-/
 
 namespace Coupe.Driver.C02
-open Coupe.Driver
+open Coupe.Driver Coupe.KMeansAbs
 
-/-- (stub; not built yet) -/
-def handle (_toks : List String) : String := "bad-op"
+def words (s : String) : List String := (s.splitOn " ").filter (· ≠ "")
+
+/-- `(tokens before sep, tokens after the first sep)` -/
+def splitAtTok (sep : String) (toks : List String) : List String × List String :=
+  (toks.takeWhile (· ≠ sep), (toks.dropWhile (· ≠ sep)).drop 1)
+
+/-- The id array of an owner's line `ok <…> | <ids> [| …]`. -/
+def idsField (line : String) : Option (List String) :=
+  match words line with
+  | "ok" :: rest => some (((splitAtTok "|" rest).2).takeWhile (· ≠ "|"))
+  | _ => none
+
+/-- Owner's line → C02's canonical line. -/
+def relabel (line : String) : String :=
+  match idsField line with
+  | some ids => " ".intercalate ("ok" :: ids)
+  | none =>
+    if line == "ok-empty" then "ok"
+    else if line == "lenmismatch" || line == "bionly" || line == "negative" then "err " ++ line
+    else line
+
+def handleFm (tail : List String) : String :=
+  let (base, impl) := splitAtTok "=>" tail
+  let line := Coupe.Driver.C07.handle ("fm" :: base)
+  match words line, impl with
+  | "ok" :: cap :: "|" :: _, _ :: _ =>
+    -- the implementation's line in C07's format (the cap does not depend on the choices)
+    let target := "ok" :: cap :: "|" :: impl
+    if " ".intercalate target == line then relabel line
+    else relabel (Coupe.Driver.C07.handle ("fm" :: base ++ "=>" :: target))
+  | _, _ => relabel line
+
+structure Sweep where
+  cids : List Nat
+  after : List Nat
+
+/-- Apply `<p> <c>` pairs; `none` if a position is outside the array. -/
+def applyChanges (asg : List Nat) : List Nat → Option (List Nat)
+  | p :: c :: rest => if p < asg.length then applyChanges (asg.set p c) rest else none
+  | [] => some asg
+  | [_] => none
+
+/-- `S <k> <cids…> <nchg> {<p> <c>}…` | `R <count>` -/
+def parseTrace (fuel : Nat) (prev : Sweep) (acc : List Sweep) (toks : List String) :
+    Option (List Sweep) :=
+  match fuel with
+  | 0 => none
+  | fuel + 1 =>
+    match toks with
+    | [] => some acc.reverse
+    | "R" :: c :: rest => do
+      let c ← parseNat? c
+      if acc.isEmpty || c > 1000000 then none
+      parseTrace fuel prev ((List.replicate c prev).reverseAux acc) rest
+    | "S" :: k :: rest => do
+      let k ← parseNat? k
+      let (cids, rest) ← takeParsed parseNat? k rest
+      match rest with
+      | m :: rest =>
+        let m ← parseNat? m
+        let (chg, rest) ← takeParsed parseNat? (2 * m) rest
+        let after ← applyChanges prev.after chg
+        let s : Sweep := ⟨cids, after⟩
+        parseTrace fuel s (s :: acc) rest
+      | [] => none
+    | _ => none
+
+def joinOk (ids : List Nat) : String := " ".intercalate ("ok" :: ids.map toString)
+
+/-- First sweep that is not a step of the model, if any. -/
+def firstIllegal (cids : List Nat) : Nat → List Nat → List Sweep → Option String
+  | _, _, [] => none
+  | i, before, s :: rest =>
+    if !sameIds cids s.cids then some ("illegal-step " ++ toString i ++ " center-ids")
+    else if !legalStep cids before s.after then some ("illegal-step " ++ toString i ++ " assignment")
+    else firstIllegal cids (i + 1) s.after rest
+
+def handleKMeans (dim : Nat) (tail : List String) : String :=
+  let (base, trace) := splitAtTok "=>" tail
+  match base with
+  | th :: tol :: delta :: mi :: mbi :: er :: mbr :: n :: rest =>
+    match (do
+      let _ ← parseNat? th
+      let _ ← parseHex? tol
+      let _ ← parseHex? delta
+      let _ ← parseNat? mi
+      let _ ← parseNat? mbi
+      let _ ← parseNat? er
+      let _ ← parseNat? mbr
+      let n ← parseNat? n
+      let (ids, rest) ← takeParsed parseNat? n rest
+      let (_, rest) ← takeParsed parseInt? (n * dim + n) rest
+      if !rest.isEmpty then none
+      let sweeps ← parseTrace (trace.length + 1) ⟨[], ids⟩ [] trace
+      pure (ids, sweeps)) with
+    | none => "bad-op"
+    | some (ids, sweeps) =>
+      let cids := centerIds ids
+      -- the prologue decides whether any sweep can run at all
+      match run {} ids [] with
+      | .panicUnsound => "panic Input partition is unsound"
+      | .panicCenterEmpty => "panic assertion failed: !points.is_empty()"
+      | .ok _ =>
+        if maxId ids < 1 && !sweeps.isEmpty then "illegal-step 0 sweep-after-early-return" else
+        match firstIllegal cids 0 ids sweeps with
+        | some e => e
+        | none =>
+          match run {} ids (sweeps.map (fun s => bestOf cids s.after)) with
+          | .ok out => joinOk out
+          | .panicUnsound => "panic Input partition is unsound"
+          | .panicCenterEmpty => "panic assertion failed: !points.is_empty()"
+  | _ => "bad-op"
+
+def handle (toks : List String) : String :=
+  match toks with
+  | "vnbest" :: rest => relabel (Coupe.Driver.C14.handle ("best" :: rest))
+  | "vnfirst" :: rest => relabel (Coupe.Driver.C14.handle ("first" :: rest))
+  | "kl" :: th :: rest =>
+    if (parseNat? th).isNone then "bad-op" else relabel (Coupe.Driver.C15.handle ("kl" :: rest))
+  | "fm" :: th :: rest => if (parseNat? th).isNone then "bad-op" else handleFm rest
+  | "arcswap" :: _ => "skip exact-model-in-C05"
+  | "kmeans2" :: rest => handleKMeans 2 rest
+  | "kmeans3" :: rest => handleKMeans 3 rest
+  | _ => "bad-op"
 
 end Coupe.Driver.C02
